@@ -507,8 +507,19 @@ func (self *Fork) reset() {
 
 func (self *Fork) resetPartial() error {
 	self.lastPrint = time.Now()
+	splitState, _ := self.split_metadata.getState()
 	if err := self.split_metadata.checkedReset(); err != nil {
 		return err
+	}
+	if splitState == Failed && len(self.chunks) > 0 {
+		// The chunks were created from the stage definitions written by
+		// the failed split attempt.  The next attempt defines them afresh.
+		for _, chunk := range self.chunks {
+			self.node.top.rt.JobManager.endJob(chunk.metadata)
+		}
+		self.chunks = nil
+		self.metadatasCache = nil
+		self.stageDefs = &StageDefs{ChunkDefs: []*ChunkDef{new(ChunkDef)}}
 	}
 	if err := self.join_metadata.checkedReset(); err != nil {
 		return err
